@@ -378,6 +378,14 @@ def comment_pi_options(ctx: Ctx) -> None:
         ctx.ob("after tree.xinclude() comments and PIs of the included documents are stripped before the tree is walked", ok, at=fi, node=x, construct="xinclude strip",
                msg="libxml2 parses xi:include targets with default options: a comment / PI inside an included document stays in the tree, iterwalk skips it and the text after it (its tail) is lost - "
                    "<title>Hello<?pi?> World</title> in an included file binds as 'Hello' (the native handler binds 'Hello World')")
+    # ... and every walk over a materialised tree (a caller-supplied tree was parsed with options the handler does not control)
+    for w in walks:
+        wn = node_containing(g, w)
+        if wn is None:
+            continue
+        sn = {node_containing(g, c).id for c in strips if node_containing(g, c) is not None}
+        ctx.ob("every walk over a materialised lxml tree is preceded by stripping comments and PIs", bool(sn) and g.must_pass(g.entry, wn.id, sn), at=fi, node=w, construct="tree walk strip",
+               msg="a tree is walked as it is: iterwalk skips comments / PIs and the text after them (their tail) is lost - <title>Hello<!-- c --> World</title> in a caller-supplied tree binds as 'Hello'")
     ctx.floor("lxml parser constructions", n, 3)
     # the native handler relies on ElementTree's default TreeBuilder (drops comments and PIs): no custom TreeBuilder / parser argument
     nat = ctx.repo.func(f"{PAR}.handlers.native:XmlEventHandler.parse")
@@ -802,3 +810,27 @@ def native_xinclude_loader_forwards_the_callback_arguments(ctx: Ctx) -> None:
         missing = [p for p in params if p not in passed]
         ctx.ob("xinclude_loader forwards href, parse and encoding to xinclude.default_loader", not missing and len(params) == 3, at=fi, node=c, construct="xinclude loader arguments",
                msg=f"{missing or 'a callback parameter was removed'} not forwarded: a parse=\"text\" include with an encoding is decoded as UTF-8 by the native handler only (UnicodeDecodeError or mojibake)")
+
+
+@rule("C08.R13")
+def declarations_are_sent_in_binding_order(ctx: Ctx) -> None:
+    """EventHandler.start_namespaces sends the new prefix bindings to the content handler in the order they were bound (the iteration
+    order of self.ns_map).  The lxml content handler ignores that order, the native XMLGenerator does not: it resolves a namespace to the
+    prefix mapped LAST, so when one URI is bound both as default and with a (later, generated) prefix, re-ordering the declarations makes
+    the native writer drop the prefix of qualified attributes while the lxml writer keeps it."""
+    fi = ctx.repo.func(f"{SER}.mixins:EventHandler.start_namespaces")
+    loops = [x for x in walk_no_nested(fi.node) if isinstance(x, ast.For) and any(call_name_of(c) == "start_prefix_mapping" for st in x.body for c in calls_in(st))]
+    if not loops:
+        ctx.abstain("declaration loop of start_namespaces", at=fi, why="no loop drives start_prefix_mapping")
+        return
+    g = build_cfg(fi.node)
+    for lp in loops:
+        n = node_containing(g, lp.iter) or g.node_of(lp)
+        leaves = [leaf for leaf, _ in flows(fi, n, lp.iter)] if n is not None else [lp.iter]
+        names = {x.id for x in ast.walk(lp.iter) if isinstance(x, ast.Name)} | {x.id for leaf in leaves for x in ast.walk(leaf) if isinstance(x, ast.Name)}
+        reordered = [c for leaf in [lp.iter, *leaves] for c in ast.walk(leaf) if isinstance(c, ast.Call) and call_name_of(c) in ("sorted", "reversed")]
+        reordered += [c for c in calls_in(fi.node) if isinstance(c.func, ast.Attribute) and c.func.attr in ("sort", "reverse") and isinstance(c.func.value, ast.Name) and c.func.value.id in names]
+        ctx.ob("start_namespaces declares the new bindings in binding order (no sort / reverse between self.ns_map and start_prefix_mapping)", not reordered, at=fi, node=reordered[0] if reordered else lp,
+               construct="declaration order",
+               msg="the declarations are re-ordered before they are sent: XMLGenerator maps a URI to the prefix declared last, so with ns_map={None: uri} a qualified attribute in that URI is written unprefixed by the native "
+                   "writer (no namespace) and as ns1:attr by the lxml writer")
